@@ -13,6 +13,7 @@ PID = "C10"
 BASE_SRC = "class K_mbase:\n    inherited = will_reset_to('inh')\n    redecl = will_reset_to('base')\n    shadowed = will_reset_to('marker')\n\n"
 C0_SRC = "    flag = will_reset_to(0)\n    mark2 = will_reset_to('x')\n    other = 'keep'\n"
 C1_SRC = "    flag = will_reset_to(-1)\n    other = 'keep1'\n    redecl = will_reset_to('derived')\n    shadowed = 'plain'\n"
+ATTRS3 = [("cb", "inherited", "inh", True), ("cb", "redecl", "base", True), ("cb", "shadowed", "marker", True)]
 ATTRS2 = [("c2", "flag", 0, True), ("c2", "mark2", "x", True), ("c2", "other", "keep", False)]
 ATTRS = [("c0", "flag", 0, True), ("c0", "mark2", "x", True), ("c0", "other", "keep", False), ("c1", "flag", -1, True), ("c1", "inherited", "inh", True), ("c1", "other", "keep1", False), ("c1", "redecl", "derived", True), ("c1", "shadowed", "plain", False)]
 # writers: site -> list of (component, attribute)
@@ -24,6 +25,7 @@ WRITERS = [
 ]
 
 
+EXTRA_WRITES3 = {"teleopPeriodic": [("cb", "redecl")], "c0.execute": [("cb", "shadowed"), ("cb", "inherited")], "mode.on_iteration": [("cb", "redecl")]}
 EXTRA_WRITES = {"teleopPeriodic": [("c2", "flag")], "c0.execute": [("c2", "mark2"), ("c2", "other")], "mode.on_iteration": [("c2", "flag")]}
 
 
@@ -34,9 +36,14 @@ def the_layout(variant=0):
     comps = [c0, c1] if variant == 0 else [c1, c0]
     if variant == 2:
         comps = [c0, c1, c("c2", same_class_as="c0")]  # two components that are instances of the very same class
+    if variant == 3:
+        # the base class that declares the inherited markers is itself a component, declared before its subclass
+        cb = c("cb", extra_src="    inherited = will_reset_to('inh')\n    redecl = will_reset_to('base')\n    shadowed = will_reset_to('marker')\n")
+        comps = [cb, c0, c("c1", inherit="cb", extra_src=C1_SRC)]
     lay = R.layout(f"reset{variant}", comps, auto=True, teleop_in_auto=(variant != 1), p_us=20000)
-    lay["prelude"] = BASE_SRC
-    lay["c1_parent"] = "K_mbase"
+    if variant != 3:
+        lay["prelude"] = BASE_SRC
+        lay["c1_parent"] = "K_mbase"
     return lay
 
 
@@ -67,14 +74,14 @@ class Hook:
         if r is None or not hasattr(r, "c0") or not hasattr(r, "c1"):
             return
         snap = []
-        attrs = ATTRS + (ATTRS2 if hasattr(r, "c2") else [])
+        attrs = ATTRS + (ATTRS2 if hasattr(r, "c2") else []) + (ATTRS3 if hasattr(r, "cb") else [])
         for comp, attr, _d, _m in attrs:
             snap.append(getattr(getattr(r, comp), attr, "<missing>"))
         rec[2] = snap
         w = self.writers.get(site)
         if w:
             val = f"{site}#{n}"
-            for comp, attr in w + (EXTRA_WRITES.get(site, []) if hasattr(r, "c2") else []):
+            for comp, attr in w + (EXTRA_WRITES.get(site, []) if hasattr(r, "c2") else []) + (EXTRA_WRITES3.get(site, []) if hasattr(r, "cb") else []):
                 setattr(getattr(r, comp), attr, val)
 
 
@@ -86,6 +93,10 @@ def check(lay, h, life, writers):
         ATTRS = ATTRS + ATTRS2
         for site in wr:
             wr[site] = wr[site] + EXTRA_WRITES.get(site, [])
+    if any(c["name"] == "cb" for c in lay["comps"]):
+        ATTRS = ATTRS + ATTRS3
+        for site in wr:
+            wr[site] = wr[site] + EXTRA_WRITES3.get(site, [])
     state = {(c, a): d for c, a, d, _m in ATTRS}
     cnt = {}
     for k, st in enumerate(life.steps):
@@ -153,7 +164,7 @@ def main(tier, seed):
     if tier == "thorough":
         cases_fault += [(allw, {a: "every", b: "every"}) for a, b in itertools.combinations(["c0.execute", "c1.execute", "teleopPeriodic", "robotPeriodic", "mode.on_iteration", "c0.fb"], 2)]
     items = []
-    for v in (0, 1, 2):
+    for v in (0, 1, 2, 3):
         lay = the_layout(v)
         for i in range(0, len(hs), 4):
             items.append(dict(layout=lay, histories=hs[i:i + 4], cases=cases_script + cases_fault))
@@ -161,9 +172,9 @@ def main(tier, seed):
     for d in core.parallel("mc.props.c10", "work", items, seed=seed):
         res.merge(d)
     res.states = 2 * 16 * 4
-    res.bounds.update(history_depth=depth, layouts=3, assignment_scripts=16, fault_plans=len(cases_fault), attributes=[f"{c}.{a}" for c, a, _d, _m in ATTRS])
+    res.bounds.update(history_depth=depth, layouts=4, assignment_scripts=16, fault_plans=len(cases_fault), attributes=[f"{c}.{a}" for c, a, _d, _m in ATTRS])
     rule = (
-        "three component layouts (both declaration orders, and one with two components that are instances of the same class; markers declared on the class, a second marker, a marker inherited from a base "
+        "three component layouts (both declaration orders, one with two components that are instances of the same class, one where the base class declaring the inherited markers is itself a component; markers declared on the class, a second marker, a marker inherited from a base "
         "class, an unmarked attribute) x every driver-station history up to the stated depth x all 16 subsets of assignment sources "
         "(teleopPeriodic, autonomous mode, earlier component, later component) and, with all sources active, every single fault plan "
         "(site x {first, every}) with the FMS attached. Every callback records all six attributes before doing its own assignments; a "
